@@ -29,6 +29,13 @@ open Exetera
 
 variable {α : Type} [DecidableEq α]
 
+/-- results of the model can be compared by `decide` (used by the witness theorems and the examples) -/
+instance decEqExcept {ε β : Type} [DecidableEq ε] [DecidableEq β] : DecidableEq (Except ε β)
+  | .ok a, .ok b => if h : a = b then isTrue (by rw [h]) else isFalse (by intro h'; cases h'; exact h rfl)
+  | .error a, .error b => if h : a = b then isTrue (by rw [h]) else isFalse (by intro h'; cases h'; exact h rfl)
+  | .ok _, .error _ => isFalse (by intro h; cases h)
+  | .error _, .ok _ => isFalse (by intro h; cases h)
+
 /-- `dest_values[d_index_v + delta] = x; delta += 1` -/
 def pushV (cap : Nat) (vb : List α) (x : α) (site : String) : Except Err (List α) :=
   if vb.length < cap then .ok (vb ++ [x]) else .error (.oob site)
